@@ -46,6 +46,9 @@ class AnalysisError(Exception):
     pass
 
 
+_CACHE = {}
+
+
 import re as _re
 _CLOSURE_TY = _re.compile(r"\{(closure|coroutine)@[^}]*\}")
 
@@ -269,6 +272,58 @@ def ensure_facts(config="prod", quiet=False):
     finally:
         fcntl.flock(lock, fcntl.LOCK_UN)
         lock.close()
+
+
+FIXTURE_DIR = os.path.join(VERIF, "fixtures", "positive")
+
+
+def ensure_fixture_facts():
+    """Facts of the positive-control crate (fixtures/positive), extracted by the same airlint driver."""
+    os.makedirs(WORK, exist_ok=True)
+    lock = open(os.path.join(WORK, "lock"), "w")
+    fcntl.flock(lock, fcntl.LOCK_EX)
+    try:
+        build_airlint()
+        h = hashlib.sha256()
+        for n in ("Cargo.toml", os.path.join("src", "lib.rs")):
+            with open(os.path.join(FIXTURE_DIR, n), "rb") as fh:
+                h.update(fh.read())
+        with open(AIRLINT, "rb") as fh:
+            h.update(hashlib.sha256(fh.read()).digest())
+        out = os.path.join(WORK, "facts", "fixture", h.hexdigest()[:20])
+        marker = os.path.join(out, "COMPLETE")
+        if os.path.exists(marker):
+            return out
+        shutil.rmtree(os.path.join(WORK, "facts", "fixture"), ignore_errors=True)
+        os.makedirs(out, exist_ok=True)
+        target = os.path.join(WORK, "target-fixture")
+        shutil.rmtree(target, ignore_errors=True)
+        rustc, sysroot = nightly_paths()
+        env = dict(os.environ)
+        env.pop("RUSTUP_TOOLCHAIN", None)
+        env.update({
+            "CARGO_NET_OFFLINE": "true", "RUSTC_WORKSPACE_WRAPPER": AIRLINT,
+            "LD_LIBRARY_PATH": os.path.join(sysroot, "lib") + ":" + env.get("LD_LIBRARY_PATH", ""),
+            "RUSTFLAGS": "--cap-lints allow -Zmir-opt-level=0 -C debug-assertions=no -C overflow-checks=yes",
+            "CARGO_TARGET_DIR": target, "AIRLINT_OUT": out,
+        })
+        r = _run(["cargo", "+nightly", "check", "--offline"], cwd=FIXTURE_DIR, env=env)
+        if r.returncode != 0 or not glob.glob(os.path.join(out, "air_fixture*.jsonl")):
+            shutil.rmtree(out, ignore_errors=True)
+            raise AnalysisError("cannot analyse the positive-control fixture crate:\n" + r.stdout[-3000:])
+        with open(marker, "w") as fh:
+            fh.write("ok\n")
+        return out
+    finally:
+        fcntl.flock(lock, fcntl.LOCK_UN)
+        lock.close()
+
+
+def load_fixture():
+    d = ensure_fixture_facts()
+    if d not in _CACHE:
+        _CACHE[d] = Facts(d)
+    return _CACHE[d]
 
 
 # ---------------------------------------------------------------------------------------------
@@ -582,7 +637,6 @@ class Facts:
         table = canon_names()
         if not table:
             return
-        _ALIAS.clear()
         present = {p: fs[0] for p, fs in self.by_path.items() if len(fs) == 1}
         missing = [p for p, e in table.items() if p not in self.by_path and "::{closure" not in p and e["crate"] in self.crates]
         new = [f for p, f in present.items() if p not in table and "::{closure" not in p and f.kind != "Closure"
@@ -788,9 +842,6 @@ def op_place(op):
 def op_local(op):
     p = op_place(op)
     return p["l"] if p else None
-
-
-_CACHE = {}
 
 
 def load(config="prod"):
